@@ -436,6 +436,8 @@ FIXED = [
     ('piece-length-true', {}, {'length': R.I(5), 'piece length': R.B(True)}),
     ('piece-length-float', {}, {'length': R.I(5), 'piece length': R.F(16384.0)}),
     ('piece-length-huge-float-len', {}, {'length': R.F(5.0), 'piece length': R.I(K * 10 ** 400)}),
+    ('pieces-39-bytes', {}, {'length': R.I(5), 'pieces': R.Y(b'x' * 39)}),
+    ('pieces-21-bytes', {}, {'length': R.I(5), 'pieces': R.Y(b'x' * 21)}),
     ('pieces-str', {}, {'length': R.I(5), 'pieces': R.S('x' * 20)}),
     ('name-bytes', {}, {'length': R.I(5), 'name': R.Y(b'\xff\xfe')}),
     ('name-int', {}, {'length': R.I(5), 'name': R.I(5)}),
